@@ -1,21 +1,39 @@
 //! Coq term printers for the types of `coq/C18/Serde.v` / `Corr.v`.
-//! Numbers below 2^32 are printed in decimal, bigger ones in hex (decimal literals parse
-//! quadratically in Coq 8.16); strings are printed as their UTF-8 bytes.
+//! Numbers below 2^32 are printed in decimal, bigger ones as `(B [c0;c1;..]%uint63)`: little-endian
+//! 60-bit chunks as primitive integers (Corr.v `B`, `ZB`, `ZBn`) - decimal literals parse
+//! quadratically in Coq 8.16 and even a hex literal of 250 bits costs 5 ms; strings are printed
+//! as their UTF-8 bytes.
 use cairo_lang_sierra::ids::UserTypeId;
 use cairo_lang_sierra::program::*;
 use cairo_lang_starknet_classes::compiler_version::VersionId;
 use cairo_lang_utils::bigint::BigUintAsHex;
 use num_bigint::{BigInt, BigUint, Sign};
 
+/// little-endian 60-bit chunks, as a Coq list of primitive integers
+fn chunks60(v: &BigUint) -> String {
+    let mask = (BigUint::from(1u8) << 60) - BigUint::from(1u8);
+    let mut v = v.clone();
+    let mut cs = vec![];
+    while v.bits() > 0 {
+        cs.push((&v & &mask).iter_u64_digits().next().unwrap_or(0).to_string());
+        v >>= 60;
+    }
+    format!("[{}]%uint63", cs.join(";"))
+}
 pub fn n_lit(v: &BigUint) -> String {
-    if v.bits() <= 32 { v.to_string() } else { format!("0x{:x}", v) }
+    if v.bits() <= 32 { v.to_string() } else { format!("(B {})", chunks60(v)) }
 }
 pub fn n_u64(v: u64) -> String {
-    if v < (1u64 << 32) { v.to_string() } else { format!("0x{:x}", v) }
+    n_lit(&BigUint::from(v))
 }
 pub fn z_lit(v: &BigInt) -> String {
-    let m = n_lit(v.magnitude());
-    if v.sign() == Sign::Minus { format!("(-{})", m) } else { m }
+    let m = v.magnitude();
+    match (v.sign() == Sign::Minus, m.bits() <= 32) {
+        (false, true) => m.to_string(),
+        (true, true) => format!("(-{})", m),
+        (false, false) => format!("(ZB {})", chunks60(m)),
+        (true, false) => format!("(ZBn {})", chunks60(m)),
+    }
 }
 pub fn list(xs: &[String]) -> String {
     format!("[{}]", xs.join("; "))
